@@ -55,22 +55,11 @@ def parseOp (op : List String) : Option Op :=
   | ["size", p] => some (.size (parsePath p))
   | _ => none
 
-/-- `CopyToDirectory(src, dir)` = `mkdir -p dir`, then `cp src dir`; `CopyToFile(src, file)` = `cp src file` once the source
-    is a file and the destination is a file or a missing plain name -/
+/-- `CopyToDirectory` / `CopyToFile` as the reference model renders them (`Model.Fs.copyToDirectory`, `copyToFile`) -/
 def runCopyTo (t : Tree) (op : List String) : Option (Option (Res × Tree)) :=
   match op with
-  | ["cpd", s, d] =>
-    some (match step t (.mkdir (parsePath d)) with
-      | none => none
-      | some (.err e, t1) => some (.err e, t1)
-      | some (_, t1) => step t1 (.cp (parsePath s) (parsePath d) (d.endsWith "/")))
-  | ["cpf", s, d] =>
-    let sp := parsePath s
-    let dp := parsePath d
-    some (if !isFile t sp then some (.err .invalid, t)
-      else if exists_ t dp then (if !isFile t dp then some (.err .invalid, t) else step t (.cp sp dp false))
-      else if dp.isEmpty || d.endsWith "/" then some (.err .invalid, t)
-      else step t (.cp sp dp false))
+  | ["cpd", s, d] => some (copyToDirectory t (parsePath s) (parsePath d) (d.endsWith "/"))
+  | ["cpf", s, d] => some (copyToFile t (parsePath s) (parsePath d) (d.endsWith "/"))
   | _ => none
 
 def runOp (t : Tree) (op : List String) : Option (Res × Tree) :=
